@@ -642,6 +642,13 @@ theorem share_spec {α : Type} [DecidableEq α] :
   rw [shareOk_eq]
   simp [hT.c1, hT.c2, hT.c3, hT.c4]
 
+/-- the trace-level link at every environment turn: the sinks attached according to the trace are `st.sinks` (during a
+terminal fan-out: the sinks not served yet), and the upstream subscriptions made so far are `0, …, gen-1` in this order -/
+theorem share_attached {α : Type} (s : Cfg α) (hs : SReachR (machine α) noNestedFanout s) (ht : EnvTurn s) :
+    attached s.tr = expAtt s.st.sinks s.stack ∧ subscriptions s.tr = List.range s.st.gen :=
+  let ⟨_, _, hT⟩ := finv_of_reach s hs ht
+  ⟨hT.att, hT.gen⟩
+
 /-! ## the fan-out clause: every attached sink receives every datum emitted while it is attached -/
 
 /-- runs of the operator against peers that answer every call of the operator by returning at once -/
@@ -716,17 +723,14 @@ theorem recvData_fanEvs (a : α) (k : Nat) (ks : List Nat) (tr : List (Ev α α)
     rw [this, ih]
     by_cases h : k1 = k
     · subst h
-      simp [recvData, List.count_cons, List.replicate_succ]
-    · have h' : (k1 == k) = false := by simpa using h
-      simp [recvData, List.count_cons, h, h']
+      simp [recvData, List.replicate_succ]
+    · simp [recvData, h]
 
 theorem recvData_fanEvs_nodup (a : α) (k : Nat) (ks : List Nat) (hnd : ks.Nodup) (tr : List (Ev α α)) :
     recvData k (.retO :: fanEvs a ks ++ tr) = if k ∈ ks then recvData k tr ++ [a] else recvData k tr := by
   have : recvData k (.retO :: fanEvs a ks ++ tr) = recvData k (fanEvs a ks ++ tr) := by simp [recvData]
-  rw [this, recvData_fanEvs]
-  split
-  · rename_i h; rw [List.count_eq_one_of_mem hnd h]; rfl
-  · rename_i h; rw [List.count_eq_zero_of_not_mem h]; simp
+  rw [this, recvData_fanEvs, hnd.count]
+  split <;> simp [List.replicate_succ]
 
 /-- **fan-out, at reachable configurations**: whenever an upstream legally delivers `Data a` (environment turn `s`, no
 delivery of the operator open), the sinks attached according to the trace (`attached s.tr`) are exactly `st.sinks`, they are
@@ -749,9 +753,9 @@ theorem share_fanout_reach (s s' : Cfg α) (hs : SReachR (machine α) noNestedFa
     obtain ⟨hlive, _⟩ := hl
     rcases hm with ⟨hcore, hs⟩ | ⟨k, _, _, _, _, _, hsrc, hoths⟩ | ⟨s, d, r, rest, _, _, _, _, _, _, hsrcs⟩
     · have hatt : attached tr = st.sinks := by rw [hT.att, expAtt_stackOK hs]
-      refine ⟨hatt, hatt ▸ hcore.nodup, ⟨_, ?_⟩, fun k => ?_⟩
+      refine ⟨hatt, hatt ▸ hcore.nodup, ?_, fun k => ?_⟩
       · rw [hatt]
-        exact share_fanout st stk _ _ a (fun k hk => by simpa [Ph.onIn] using (hcore.mem k).1 hk)
+        exact ⟨_, share_fanout st stk _ _ a (fun k hk => by simpa [Ph.onIn] using (hcore.mem k).1 hk)⟩
       · rw [recvData_fanEvs_nodup a k _ (hatt ▸ hcore.nodup)]
         simp [recvData]
     · by_cases hi : i = st.gen - 1
